@@ -116,6 +116,14 @@ func patchTreasuresOneSwamp(ctx context.Context, g Gateway, in *hydrapb.PatchTre
 
 	results := make([]*hydrapb.PatchResult, 0, len(in.GetPatches()))
 	for _, patch := range in.GetPatches() {
+		if keyErr := checkTreasureKey(patch.GetKey()); keyErr != nil {
+			results = append(results, &hydrapb.PatchResult{
+				Key:    patch.GetKey(),
+				Status: hydrapb.PatchResult_PATH_INVALID,
+				Error:  protoStr(keyErr.Error()),
+			})
+			continue
+		}
 		ops, opsErr := protoOpsToMsgpackpatchOps(patch.GetOps())
 		if opsErr != nil {
 			results = append(results, &hydrapb.PatchResult{
